@@ -334,6 +334,130 @@ def alias_keys(cnode, new_attr, resolve_call):
     return out
 
 
+def proxy_keys(cnode, new_attr):
+    """key completeness of a memo whose key is handed in by the caller (a proxy key): [(field, method, missing params, node)].
+    In the method that tests `stored key == K` (K a parameter) the memoised value is computed from the OTHER parameters; following K
+    up through pass-through parameters to the method that builds it, the key expression must depend on every parameter of that method
+    on which one of the other arguments depends (flow-insensitive def-use closure).  A key that depends on fewer parameters than the
+    arguments it stands for returns the value computed for different arguments."""
+    methods = {st.name: st for st in cnode.body if isinstance(st, ast.FunctionDef) and st.args.args}
+
+    def pnames(m):
+        a = m.args
+        return [x.arg for x in a.posonlyargs + a.args + a.kwonlyargs]
+
+    def names(e):
+        return {n.id for n in ast.walk(e) if isinstance(n, ast.Name)}
+
+    def deps(m, seeds, under=False):
+        # under=True: a name with several definitions contributes only what ALL of them depend on (under-approximation for the key)
+        defs = {}
+        ndefs = {}
+        for n in ast.walk(m):
+            if isinstance(n, ast.Assign):
+                for t in n.targets:
+                    for tn in ast.walk(t):
+                        if isinstance(tn, ast.Name):
+                            defs.setdefault(tn.id, set()).update(names(n.value))
+                            ndefs.setdefault(tn.id, []).append(names(n.value))
+            elif isinstance(n, (ast.AugAssign, ast.AnnAssign)) and getattr(n, 'value', None) is not None and isinstance(n.target, ast.Name):
+                defs.setdefault(n.target.id, set()).update(names(n.value))
+            elif isinstance(n, (ast.For, ast.comprehension)):
+                for tn in ast.walk(n.target):
+                    if isinstance(tn, ast.Name):
+                        defs.setdefault(tn.id, set()).update(names(n.iter))
+        if under:
+            for k_, lst in ndefs.items():
+                inter = set(lst[0])
+                for l_ in lst[1:]:
+                    inter &= l_
+                defs[k_] = inter if len(lst) > 1 else set(lst[0])
+        seen, work = set(), list(seeds)
+        while work:
+            x = work.pop()
+            if x in seen:
+                continue
+            seen.add(x)
+            work.extend(defs.get(x, ()))
+        return seen
+
+    out = []
+    for mname, m in methods.items():
+        me = m.args.args[0].arg
+        ps = pnames(m)
+        # locals unpacked from a new memo field
+        from_memo = {}
+        for n in ast.walk(m):
+            if isinstance(n, ast.Assign) and len(n.targets) == 1:
+                v = n.value
+                while isinstance(v, ast.Subscript):
+                    v = v.value
+                if _self_attr(v, me) and new_attr(v.attr):
+                    for tn in ast.walk(n.targets[0]):
+                        if isinstance(tn, ast.Name):
+                            from_memo[tn.id] = v.attr
+        for n in ast.walk(m):
+            if not (isinstance(n, ast.Compare) and len(n.ops) == 1 and isinstance(n.ops[0], (ast.Eq, ast.NotEq)) ):
+                continue
+            for a, b in ((n.left, n.comparators[0]), (n.comparators[0], n.left)):
+                F = None
+                if isinstance(a, ast.Name) and a.id in from_memo:
+                    F = from_memo[a.id]
+                else:
+                    v = a
+                    while isinstance(v, ast.Subscript):
+                        v = v.value
+                    if _self_attr(v, me) and new_attr(v.attr):
+                        F = v.attr
+                if F is None or not (isinstance(b, ast.Name) and b.id in ps and b.id != me):
+                    continue
+                K = b.id
+                others = [q for q in ps if q not in (me, K) and any(isinstance(x, ast.Name) and x.id == q for x in ast.walk(m))]
+                if not others:
+                    continue
+                # climb through pass-through parameters
+                frontier, visited = [(mname, K, set(others))], set()
+                while frontier:
+                    cur, k, oth = frontier.pop()
+                    if (cur, k) in visited:
+                        continue
+                    visited.add((cur, k))
+                    cm = methods[cur]
+                    cps = pnames(cm)
+                    for caller_name, caller in methods.items():
+                        cme = caller.args.args[0].arg
+                        for c in ast.walk(caller):
+                            if not (isinstance(c, ast.Call) and isinstance(c.func, ast.Attribute) and c.func.attr == cur and _self_attr(c.func, cme)):
+                                continue
+                            amap = {}
+                            for i, arg in enumerate(c.args):
+                                if i + 1 < len(cps):
+                                    amap[cps[i + 1]] = arg
+                            for kw in c.keywords:
+                                if kw.arg:
+                                    amap[kw.arg] = kw.value
+                            if k not in amap:
+                                continue        # default key (None): memo disabled at this site
+                            kexpr = amap[k]
+                            oexprs = [amap[o] for o in oth if o in amap]
+                            callps = set(pnames(caller)) - {cme}
+                            if isinstance(kexpr, ast.Name) and kexpr.id in callps and not any(
+                                    isinstance(x, ast.Assign) and any(isinstance(t, ast.Name) and t.id == kexpr.id for t in x.targets) for x in ast.walk(caller)):
+                                o2 = set()
+                                for e in oexprs:
+                                    o2 |= deps(caller, names(e)) & callps
+                                frontier.append((caller_name, kexpr.id, o2 - {kexpr.id}))
+                                continue
+                            need = set()
+                            for e in oexprs:
+                                need |= deps(caller, names(e)) & callps
+                            have = deps(caller, names(kexpr), under=True) & callps
+                            missing = sorted(need - have)
+                            if missing:
+                                out.append((F, caller_name, missing, c, cur))
+    return out
+
+
 def check(repo, ctx, rule, files, base_attrs):
     """applies the template to every class of `files`"""
     def new_attr(a):
@@ -368,6 +492,13 @@ def check(repo, ctx, rule, files, base_attrs):
                                   construct=f'{cnode.name}.{mn}: key of {F} aliases an argument')
             except Exception as e:
                 ctx.advisories.append(f'T-MEMO (alias) failed on {path}::{cnode.name}: {type(e).__name__}: {e}')
+            try:
+                for F, mn, missing, node, via in proxy_keys(cnode, new_attr):
+                    ctx.violation(rule, path, f'{cnode.name}.{mn}', node, f'the key under which self.{F} is memoised is built in {mn} and handed to {via}, but it does not depend on {missing}, '
+                                  f'on which the arguments the memoised value is computed from depend: a later call that differs only in {missing} gets the value computed for the earlier one',
+                                  construct=f'{cnode.name}.{mn}: key of {F} omits {missing}')
+            except Exception as e:
+                ctx.advisories.append(f'T-MEMO (proxy key) failed on {path}::{cnode.name}: {type(e).__name__}: {e}')
             for F, mn, X, node in viol:
                 ctx.violation(rule, path, f'{cnode.name}.{mn}', node, f'{mn} changes self.{X}, which is read when the memoised self.{F} is computed, but neither clears self.{F} nor calls a method that does: '
                               f'later reads return the value computed from the old {X}', construct=f'{cnode.name}.{mn}: {X} -> {F}')
